@@ -71,3 +71,7 @@ claim("C07",
       "Decides: the alias table (33 spellings -> unit variants, no shadowing), the whitespace set, unit-only operator enums and absence of source text in AST nodes, Eq=>Hash for all hand-written Hash impls, pairwise-distinct operator names reaching JSON (one per variant), JSON fields == compared fields for nodes with skipped fields, parser flattening of same-operator chains, and that the C-API hash hashes exactly the JSON byte stream. That the JSON is the canonical document of an arbitrary tree and FNV arithmetic are not decided.",
       TB + " Derived serde impls and serde_json are trusted.",
       "HIR/ADT table rules + sibling (eq/hash/serialize) agreement")
+claim("C18",
+      "Data-race freedom and absence of shared mutable state in this repository's code, by the type checker: 35+ compile_fail witnesses with compiling twins show that closures, comparators, user functions, compiled functions and per-call contexts holding thread-unsafe state (Send-only, Sync-only and neither) are rejected and that every shareable type is Send + Sync; census rules: no `unsafe impl Send/Sync`, statics limited to the reviewed set with no writer of USE_AVX2, the only interiorly mutable state capturable by a compiled filter is the regex scratch pool and reference counts, execute() takes shared references. Determinism across recompilations (random SIMD anchor) and user callbacks are not decided.",
+      "Trusted: rustc's auto-trait/borrow checking, std, dependencies' unsafe code and contracts (regex pool independence), this repository's unsafe blocks as enumerated in the evidence, the reviewed allow-lists.",
+      "compile_fail type-level witnesses + impl/static/interior-mutability census", category="proof")
